@@ -20,7 +20,7 @@ def main(tier, args):
         for s in range(NSCEN):
             jobs.append(("plain:%s_s%d" % (e, s), [plain, e, str(s), str(bp)]))
             jobs.append(("asan:%s_s%d" % (e, s), [asan, e, str(s), str(ba)]))
-            jobs.append(("tsan:%s_s%d" % (e, s), [tsan, e, str(s), str(bt)]))
+            jobs.append(("tsan:%s_s%d" % (e, s), [tsan, e, str(s), str(bt + 1 if s in (9, 10, 12) else bt)]))   # the thread-identity scenarios are small: TSan one bound deeper
     # longest jobs first (measured): plain scenarios 4, 7, 2, then the history searches
     heavy = {"plain:epoll_s4": 0, "plain:select_s4": 0, "plain:epoll_s7": 1, "plain:select_s7": 1, "plain:epoll_s2": 2, "plain:select_s2": 2, "hist:epoll": 3, "hist:select": 3}
     jobs.sort(key=lambda j: heavy.get(j[0], 9))
@@ -28,19 +28,29 @@ def main(tier, args):
     env = {"VERIF_DEADLINE_S": str(dl), "VERIF_WORKERS": "3", "TSAN_OPTIONS": "report_signal_unsafe=0:exitcode=0"}
     vf.run_procs(res, jobs, env=env, log=log, jobs=6)
     vf.finish(PID, tier, res, t0,
-              rule="(S) stateless DFS over all interleavings of 1-2 submitting threads with the real loop's start/iteration/exit/re-run/destruction on both back-ends, "
-                   "sync points = recursive mutex, eventfd read/write, epoll_wait/select; preemption bound %d (plain), %d (ASan), %d (TSan on every schedule); deadlock with queued work = lost wake-up. "
-                   "9 scenarios: foreign runInLoop (both overloads) before/while/after the loop runs, exit + re-run (2 and 3 runs), submissions around exit; "
-                   "scenario 6 = a loop-thread callable of a loop that stays alive submits runInLoop + a runNext->runNext chain and the submitter waits for all of them before it offers any further wake-up; "
-                   "scenario 7 = loop-thread runInLoop/runNext immediately cancelled (cancel must return true, callable never runs, second cancel false) while a foreign thread submits; "
-                   "scenario 8 = foreign run(Func&&), run(const Func&) and runInLoop(const Func&) into a running, possibly sleeping loop, each awaited before the next wake-up source. "
-                   "(H) BFS over all single-thread histories of runNext/runInLoop/run (alternating Func&& / const Func& overloads) with 8 callable behaviours (spawn child via either entry point, "
-                   "4-generation chain runNext->runInLoop->plain, cancel following/previous/own id in batch, exit), cancel(id), loop passes (forever/once), explicit cleanup() between passes, then destruction; depth %d, "
-                   "canonical state = queue contents + wake-up flag + status of the cancellable handles. Model oracles: exactly once unless cancel returned true, order per entry point, nothing submitted before the stop "
-                   "is pending after runLoop() returned, and the loop never goes to sleep (blocking epoll_wait/select with nothing ready) while the model still owes a callable. "
+              rule="(S) stateless DFS over all interleavings of the real loop's start/iteration/exit/re-run/destruction with 1-2 other threads on both back-ends, "
+                   "sync points = recursive mutex, eventfd read/write, epoll_wait/select; preemption bound %d (plain), %d (ASan), %d (TSan on every schedule; %d for scenarios 9, 10, 12); deadlock with queued work = lost wake-up. "
+                   "Thread clause: every callable must run on the thread recorded (under the harness mutex) as being inside runLoop()/the destructor of its loop at that moment - not on a fixed thread. "
+                   "13 scenarios: 0-5 foreign runInLoop (both overloads) before/while/after the loop runs, exit + re-run (2 and 3 runs), submissions around exit; "
+                   "6 = a loop-thread callable of a loop that stays alive submits runInLoop + a runNext->runNext chain and the submitter waits for all of them before it offers any further wake-up; "
+                   "7 = loop-thread runInLoop/runNext immediately cancelled (cancel true, callable never runs, second cancel false) while a foreign thread submits; "
+                   "8 = foreign run(Func&&), run(const Func&) and runInLoop(const Func&) into a running, possibly sleeping loop, each awaited before the next wake-up source; "
+                   "9 = created + first run on main, second run + destruction on a helper thread while main, the former loop thread, uses runInLoop/run() and leaves one callable for the destructor; "
+                   "10 = created and destroyed on main, run on a helper (main never is the loop thread; one callable left for the destructor on main); "
+                   "11 = two kOnce passes, each blocked until a foreign runInLoop wakes it; "
+                   "12 = two loops (A on main, B on a helper): a callable on A's loop thread calls B->run() and B->runInLoop(const&) and waits for each. "
+                   "(H) BFS over all single-thread histories of runNext/runInLoop/run (overload Func&& / const Func& chosen by a function of the canonical state) with 8 callable behaviours (spawn child via either entry point, "
+                   "cancel following/previous/own id in batch, exit, exit after 1 ms = stop delivered by a timer callback), one-shot 1 h timers whose callback does nothing / submits through either entry point / exits, cancel(id), "
+                   "loop passes (forever/once, each also with the first wait of the pass failing with EINTR), explicit cleanup() between passes, then destruction; depth %d; virtual clock that jumps past the armed timers only when the model owes nothing. "
+                   "Canonical state = model (owed callables in submission order, armed timers, pending delayed exit, status of the cancellable handles) + probed queue lengths and wake-up flag. "
+                   "Model oracles: exactly once unless cancel returned true, order per entry point, nothing submitted before the stop is pending after runLoop() returned, and the loop never goes to sleep "
+                   "(blocking epoll_wait/select with nothing ready, with or without an armed timer) while the model still owes a callable. "
                    "Size lanes: for N in {1,99,100,101,102,201,1000} a BFS of depth %d over {a callable that submits N callables through its own entry point, N callables submitted from outside "
-                   "(runNext / runInLoop), exit, cancel, pass forever/once, cleanup(), destruction}: N callables of ONE generation pending at stop / cleanup / destruction" % (bp, ba, bt, depth, sdepth),
-              assumptions=["cross-thread submission uses runInLoop, or run() while the loop is known to be running and cannot be stopped by anyone else (loop.h documents run() as the auto-selecting entry point); exitLoop/cancel/cleanup are issued on the loop thread (DESIGN 1.7)",
-                           "an idle loop in the single-threaded history harness receives an exit request (interposed epoll_wait/select) - after the model has confirmed that nothing is owed",
-                           "callables re-submit through at most 4 generations and at most 1000 callables are pending in one generation (the shutdown drain is documented as bounded to 100 generations, not to a number of callables)",
-                           "cleanup() is only required not to lose, double or reorder callables; what it must run by itself is not part of the statement"])
+                   "(runNext / runInLoop), exit, cancel, pass forever/once, cleanup(), destruction}: N callables of ONE generation pending at stop / cleanup / destruction. "
+                   "Chain lanes: for N in {3,99,100} a BFS of depth %d over {a callable that re-submits itself alternating entry points until N have run (N drain generations), exit, idle timer, cancel, passes incl. EINTR, cleanup(), destruction}"
+                   % (bp, ba, bt, bt + 1, depth, sdepth, sdepth + 1),
+              assumptions=["cross-thread submission uses runInLoop, or run() while the target loop is known to be running and cannot be stopped by anyone else (loop.h documents run() as the auto-selecting entry point); exitLoop/cancel/cleanup are issued on the loop thread (DESIGN 1.7)",
+                           "an idle loop in the single-threaded history harness receives an exit request through the public exitLoop() (interposed epoll_wait/select) - after the model has confirmed that nothing is owed and no timer is armed",
+                           "self-re-submitting chains are at most 100 callables long and at most 1000 callables are pending in one generation (the shutdown drain is documented as bounded to 100 generations, not to a number of callables)",
+                           "cleanup() is only required not to lose, double or reorder callables; what it must run by itself is not part of the statement",
+                           "wait-call failures: only EINTR on the first wait of a pass, only in the history harness (the schedule engine's interposers in engine/sched/sched.cpp never fail)"])
